@@ -34,7 +34,8 @@ def run(v):
     # groups with a default for the whole group, choices with a positional branch, ties between defaulted branches
     gfam += D.group_fb_family(SEED + 56, 12 if q else 36, maxlen=3 if q else 4, budget=2500 if q else 25000) + \
         D.alt_pos_family(SEED + 57, 8 if q else 40, maxlen=3, budget=2500 if q else 20000) + \
-        D.alt_tie_family(SEED + 58, 8 if q else 32, maxlen=3, budget=2500 if q else 20000)
+        D.alt_tie_family(SEED + 58, 8 if q else 32, maxlen=3, budget=2500 if q else 20000) + \
+        D.gguard_family(SEED + 61, 8 if q else 24, maxlen=4 if q else 5, budget=3000 if q else 30000)
     gbig = D.alt_family(SEED + 1053, 25, budget=10**9) + D.adj_family(SEED + 1054, 18, budget=10**9)
     gcov = run_cmdline_property(v, gfam, None, replay_cfg="MC_GroupLine_replay.cfg", module="MC_GroupLine",
                                 signature=cmdline_sig.signature, ledger_every=(6 if v.tier == "quick" else 1), trace_module="GroupLineTrace", name="C05g",
